@@ -359,7 +359,7 @@ static json run_x(long id, int inst, const json &cs, Rng &r)
   // the trace state the spec speaks about is the carrier's (class exp.ts)
   bool ok = satisfies(cs["exp"], o, c.tid, c.sid, ts);
   json res = {{"ok", ok}, {"kind", o.kind}};
-  if (!ok)
+  if (!ok || (id & 2047) == 0)
   {
     res["concrete"] = concrete;
     res["observed"] = o.to_json();
@@ -461,7 +461,7 @@ static json run_rt(long id, int inst, const json &cs, Rng &r)
     res["concrete"] = concrete;
     res["observed"] = o.to_json();
   }
-  else if (deviating)
+  else if (deviating || (id & 2047) == 0)
     res["concrete"] = concrete;
   return res;
 }
@@ -498,6 +498,8 @@ static int replay(const char *path, uint64_t seed, int n)
           out["res"] = res;
         }
       }
+      else if (res.contains("concrete") && !out.contains("res"))
+        out["res"] = res;
     }
     out["valid"]     = valid;
     out["unchanged"] = unchanged;
